@@ -3,6 +3,7 @@ package main
 import (
 	"io"
 	"net"
+	"sort"
 	"sync"
 	"time"
 )
@@ -45,8 +46,10 @@ func (c *scriptConn) Write(p []byte) (int, error) {
 	c.written = append(c.written, append([]byte{}, p...))
 	return len(p), nil
 }
-func (c *scriptConn) Close() error                       { c.closed = true; return nil }
-func (c *scriptConn) LocalAddr() net.Addr                { return &net.TCPAddr{IP: net.IPv4(127, 0, 0, 1), Port: 6677} }
+func (c *scriptConn) Close() error { c.closed = true; return nil }
+func (c *scriptConn) LocalAddr() net.Addr {
+	return &net.TCPAddr{IP: net.IPv4(127, 0, 0, 1), Port: 6677}
+}
 func (c *scriptConn) RemoteAddr() net.Addr               { return c.remote }
 func (c *scriptConn) SetDeadline(t time.Time) error      { return nil }
 func (c *scriptConn) SetReadDeadline(t time.Time) error  { return nil }
@@ -175,30 +178,28 @@ func sortInts(a []int) {
 	}
 }
 
-// shardSet counts distinct 16-byte keys concurrently (64 independently locked shards).
-type shardSet struct {
-	sh [64]struct {
-		mu sync.Mutex
-		m  map[[16]byte]struct{}
-	}
+// hashBag collects 64-bit hashes of cases from many workers (each worker appends to its own slice and hands it in
+// once); Distinct sorts them and counts the distinct values.
+type hashBag struct {
+	mu  sync.Mutex
+	all []uint64
 }
 
-func (s *shardSet) Add(k [16]byte) {
-	x := &s.sh[k[0]&63]
-	x.mu.Lock()
-	if x.m == nil {
-		x.m = map[[16]byte]struct{}{}
-	}
-	x.m[k] = struct{}{}
-	x.mu.Unlock()
+func (b *hashBag) AddAll(h []uint64) {
+	b.mu.Lock()
+	b.all = append(b.all, h...)
+	b.mu.Unlock()
 }
 
-func (s *shardSet) Len() int {
+func (b *hashBag) Distinct() int {
+	b.mu.Lock()
+	defer b.mu.Unlock()
+	sort.Slice(b.all, func(i, j int) bool { return b.all[i] < b.all[j] })
 	n := 0
-	for i := range s.sh {
-		s.sh[i].mu.Lock()
-		n += len(s.sh[i].m)
-		s.sh[i].mu.Unlock()
+	for i, v := range b.all {
+		if i == 0 || v != b.all[i-1] {
+			n++
+		}
 	}
 	return n
 }
